@@ -60,6 +60,11 @@ type obs struct {
 	Adopted int    `json:"adopted"`
 	Sent    []int  `json:"sent"`
 	DiscVer int    `json:"discVer"`
+	// Drop: the peer closes the first connection after answering the first request that follows the dial; the client reconnects for
+	// the next one. Discoveries counts the Discover Versions requests the peer saw over all connections.
+	Drop        bool `json:"drop"`
+	Dropped     bool `json:"dropped"`
+	Discoveries int  `json:"discoveries"`
 	Err     string `json:"err,omitempty"`
 	Panic   string `json:"panic,omitempty"`
 }
@@ -77,6 +82,7 @@ func serveScripted(conn net.Conn, reply []int, o *obs) {
 		bi := kmip.ResponseBatchItem{Operation: req.BatchItem[0].Operation, UniqueBatchItemID: req.BatchItem[0].UniqueBatchItemID}
 		if d, ok := req.BatchItem[0].RequestPayload.(*payloads.DiscoverVersionsRequestPayload); ok {
 			o.mu.Lock()
+			o.Discoveries++
 			o.DiscVer = idx(req.Header.ProtocolVersion)
 			for _, v := range d.ProtocolVersion {
 				o.Offered = append(o.Offered, idx(v))
@@ -109,7 +115,20 @@ func serveScripted(conn net.Conn, reply []int, o *obs) {
 		if err := st.Send(resp); err != nil {
 			return
 		}
+		if _, ok := req.BatchItem[0].RequestPayload.(*payloads.DiscoverVersionsRequestPayload); !ok && o.dropNow() {
+			return
+		}
 	}
+}
+
+func (o *obs) dropNow() bool {
+	o.mu.Lock()
+	defer o.mu.Unlock()
+	if o.Drop && !o.Dropped {
+		o.Dropped = true
+		return true
+	}
+	return false
 }
 
 // the library's own executor as the peer
@@ -125,6 +144,7 @@ func serveOwn(conn net.Conn, ex *kmipserver.BatchExecutor, o *obs) {
 		resp := ex.HandleRequest(context.Background(), &req)
 		o.mu.Lock()
 		if isDisc {
+			o.Discoveries++
 			o.DiscVer = idx(req.Header.ProtocolVersion)
 			for _, v := range req.BatchItem[0].RequestPayload.(*payloads.DiscoverVersionsRequestPayload).ProtocolVersion {
 				o.Offered = append(o.Offered, idx(v))
@@ -155,6 +175,9 @@ func serveOwn(conn net.Conn, ex *kmipserver.BatchExecutor, o *obs) {
 		if err := st.Send(resp); err != nil {
 			return
 		}
+		if !isDisc && o.dropNow() {
+			return
+		}
 	}
 }
 
@@ -175,8 +198,10 @@ func cachedVersions(list []kmip.ProtocolVersion) kmipclient.Option {
 	return o
 }
 
+var dropFirstConn bool
+
 func runOne(C []int, enforced int, nreq int, serve func(net.Conn, *obs)) *obs {
-	o := &obs{Adopted: none, Offered: []int{}, Sent: []int{}, Reply: []int{}}
+	o := &obs{Adopted: none, Offered: []int{}, Sent: []int{}, Reply: []int{}, Drop: dropFirstConn}
 	dial := func(ctx context.Context) (net.Conn, error) {
 		a, b := net.Pipe()
 		go serve(b, o)
@@ -292,16 +317,27 @@ func TestReplay(t *testing.T) {
 			trace.Emit(map[string]any{"ev": "reply", "list": o.Reply})
 		}
 		trace.Emit(map[string]any{"ev": "result", "outcome": o.Outcome, "adopted": o.Adopted})
-		for _, v := range o.Sent {
+		for k, v := range o.Sent {
 			trace.Emit(map[string]any{"ev": "req", "v": v})
+			if k == 0 && o.Dropped {
+				trace.Emit(map[string]any{"ev": "reconnect", "discoveries": o.Discoveries})
+			}
 		}
 	}
 	for n, c := range cases {
 		byKey[key(c.C, c.Enforced, c.Reply)] = c
 		reply := c.Reply
+		dropFirstConn = n%2 == 1
 		o := runOne(c.C, c.Enforced, 3, func(conn net.Conn, o *obs) { serveScripted(conn, reply, o) })
+		dropFirstConn = false
 		emitTrace("scripted", c.C, c.Enforced, o)
 		var diffs []string
+		if want := boolInt(c.Enforced == none); o.Discoveries != want {
+			diffs = append(diffs, fmt.Sprintf("discoveries=%d-instead-of-%d", o.Discoveries, want))
+		}
+		if o.Err != "" && o.Outcome == "connected" {
+			diffs = append(diffs, "request-error")
+		}
 		if o.Outcome != c.Outcome {
 			diffs = append(diffs, "outcome")
 		}
@@ -343,7 +379,9 @@ func TestReplay(t *testing.T) {
 			ex.Route(kmip.OperationActivate, kmipserver.HandleFunc(func(ctx context.Context, req *payloads.ActivateRequestPayload) (*payloads.ActivateResponsePayload, error) {
 				return &payloads.ActivateResponsePayload{UniqueIdentifier: req.UniqueIdentifier}, nil
 			}))
+			dropFirstConn = mask%2 == 1
 			o := runOne(c.C, none, nreq, func(conn net.Conn, o *obs) { serveOwn(conn, ex, o) })
+			dropFirstConn = false
 			own++
 			emitTrace("own", c.C, none, o)
 			exp, ok := byKey[key(c.C, none, o.Reply)]
